@@ -449,3 +449,70 @@ def check_hier(merge=True):
         if got != exp:
             return dict(failed=True, observed=dict(inputs=(a, b, c, d), **got), expected=exp)
     return dict(failed=False, observed='ok', expected='ok')
+
+
+SEQ_HIER_BLIF = """.model wrap
+.inputs clk a b
+.outputs q r m
+.subckt dual rclk=clk wclk=clk d=a e=b q=q r=r
+.subckt maj x=a y=b z=q o=m
+.end
+
+.model dual
+.inputs rclk wclk d e
+.outputs q r
+.latch d q re wclk 1
+.latch e r re rclk 0
+.end
+
+.model maj
+.inputs x y z
+.outputs o
+.names x y z o
+11- 1
+1-1 1
+-11 1
+.end
+"""
+
+
+def check_seq_hier(merge=True, variant='dual_clock'):
+    """hierarchies with sequential sub-models: a sub-model with TWO clock ports tied to one parent clock;
+    a file whose first model (the top, by BLIF's rule and PyRTL's documentation) is also used as a
+    sub-circuit by a model listed later (import without top_model must still take the first model)"""
+    import pyrtl
+    if variant == 'dual_clock':
+        blif = SEQ_HIER_BLIF
+    else:
+        # first model: a majority cell; later model: a registered wrapper instantiating it
+        blif = (".model maj\n.inputs x y z\n.outputs o\n.names x y z o\n11- 1\n1-1 1\n-11 1\n.end\n\n"
+                ".model wrapper\n.inputs clk x y z\n.outputs o\n.subckt maj x=x y=y z=z o=t\n"
+                ".latch t o re clk 1\n.end\n")
+    try:
+        _import_blif(blif, merge)
+    except Exception as e:
+        return dict(failed=True, observed='%s: %s' % (type(e).__name__, str(e)[:100]), expected='imports', blif=blif)
+    sim = pyrtl.Simulation()
+    import random
+    rnd = random.Random(5)
+    if variant == 'dual_clock':
+        q, r = 1, 0
+        for t in range(10):
+            a, b = rnd.getrandbits(1), rnd.getrandbits(1)
+            sim.step(dict(a=a, b=b))
+            exp = dict(q=q, r=r, m=int(a + b + q >= 2))
+            got = {k: sim.inspect(k) for k in exp}
+            if got != exp:
+                return dict(failed=True, observed=dict(cycle=t, **got), expected=exp, blif=blif)
+            q, r = a, b
+    else:
+        for x, y, z in itertools.product([0, 1], repeat=3):
+            try:
+                sim.step(dict(x=x, y=y, z=z))
+            except Exception as e:
+                return dict(failed=True, observed='%s: %s' % (type(e).__name__, str(e)[:100]),
+                            expected='the first model (combinational majority) is the design', blif=blif)
+            exp = int(x + y + z >= 2)
+            if sim.inspect('o') != exp:
+                return dict(failed=True, observed=dict(inputs=(x, y, z), o=sim.inspect('o')), expected=exp, blif=blif)
+    return dict(failed=False, observed='ok', expected='ok')
